@@ -17,6 +17,13 @@ def run(tier, seed):
                        timeout=300, expect="violation")
     if not r["violated"]:
         raise vlib.Broken("the broken variant of Waitlist is not rejected: the invariants are vacuous")
+    dd = os.path.join(VERIF, "spec", "data")
+    vlib.tlc_check(chk, "PoolWait: blocking pop of the FIFO_WAIT pool (mutex + condition variable, push signals, woken consumer pops or retries) as coded, "
+                   "exhaustive incl. liveness (3 consumers, 3 pushes)", os.path.join(dd, "PoolWait.tla"), os.path.join(dd, "PoolWaitMC.cfg"), timeout=300)
+    r = vlib.tlc_check(chk, "PoolWait signalling only on the empty -> non-empty transition (must be violated: lost wake-up)", os.path.join(dd, "PoolWait.tla"),
+                       os.path.join(dd, "PoolWaitLost.cfg"), timeout=300, expect="violation")
+    if not r["violated"]:
+        raise vlib.Broken("the signal-only-when-empty variant of PoolWait is not rejected: the invariant is vacuous")
     vlib.history_check(chk, "d_sync", ["condtimed"], "H_Cond", quick, seed,
                        what="timed wait history: TIMEDOUT before the deadline or after being signalled, SUCCESS without a signal, or mutex not held at return")
     # blocking pool pops: single consumer, every unit is pushed while it waits
